@@ -208,20 +208,32 @@ func newV2World(r *rand.Rand) *v2World {
 		}
 	}
 	n := 1 + r.Intn(4)
+	// Replica ids are allocated per partition, starting at 1: the groups two
+	// nodes share normally have THE SAME sender and receiver replica ids and
+	// differ only in GroupId (and name). That is the default shape; a minority
+	// of worlds has some or all groups on distinct replica ids (members were
+	// replaced in some partitions).
+	shape := r.Intn(10) // 0..6 all groups same replica ids, 7..8 mixed, 9 all distinct
+	sharedFrom, sharedTo := uint64(1+r.Intn(3)), uint64(1+r.Intn(3))
+	if sharedTo == sharedFrom {
+		sharedTo = sharedFrom%3 + 1
+	}
+	noName := r.Intn(4) == 0 // membership records without a name: GroupId is the only difference
 	for i := 0; i < n; i++ {
 		gid := uint64(100 + i)
 		name := fmt.Sprintf("ns%d-%d", i/2, i%2)
+		from, to := sharedFrom, sharedTo
+		if shape == 9 || (shape >= 7 && r.Intn(2) == 0) {
+			from, to = uint64(10*i+1+r.Intn(3)), uint64(10*i+5+r.Intn(3))
+		}
 		g := &v2Group{
-			from: raftpb.Group{NodeId: w.remote, Name: name, GroupId: gid, RaftReplicaId: uint64(10*i + 1 + r.Intn(3))},
-			to:   raftpb.Group{NodeId: w.local, Name: name, GroupId: gid, RaftReplicaId: uint64(10*i + 5 + r.Intn(3))},
+			from: raftpb.Group{NodeId: w.remote, Name: name, GroupId: gid, RaftReplicaId: from},
+			to:   raftpb.Group{NodeId: w.local, Name: name, GroupId: gid, RaftReplicaId: to},
 			term: 1 + uint64(r.Intn(5)),
 			next: 1 + uint64(r.Intn(50)),
 		}
-		if r.Intn(3) == 0 {
+		if noName || r.Intn(3) == 0 {
 			g.to.Name = "" // NewRawNode / ConfChange records may carry no name
-		}
-		if r.Intn(6) == 0 { // two partitions of one namespace: same GroupId is not produced by the real system, same replica id across groups is
-			g.from.RaftReplicaId = 7
 		}
 		g.lastTerm = g.term
 		if r.Intn(3) == 0 && g.term > 1 {
